@@ -126,7 +126,7 @@ def extract_scratch(repo, target=None, tag='mut'):
     path = os.path.join(d, key + '.json.gz')
     try:
         ents = sorted((os.path.getmtime(os.path.join(d, x)), x) for x in os.listdir(d))
-        for _, x in ents[:max(0, len(ents) - 900)]:
+        for _, x in ents[:max(0, len(ents) - 1600)]:
             os.remove(os.path.join(d, x))
     except OSError:
         pass
